@@ -151,7 +151,7 @@ func (e *Exec) checkRaces(id string) {
 			syncs = append(syncs, ev)
 		}
 	}
-	if len(syncs) > 60 {
+	if len(syncs) > 200 {
 		e.unsupported("too many shared events (%d) for the race encoding", len(syncs))
 	}
 	for i := 1; i < len(syncs); i++ {
